@@ -417,6 +417,16 @@ Section Scan.
       rewrite app_nil_r. apply rac_done, brace_free_no_rbrace. eapply subst_all_brace_free; eauto.
     Qed.
 
+    (* a resolver that never returns a brace makes every tag clean *)
+    Lemma clean_all : (forall x r, f x = Ok r -> brace_free r = true) -> forall t, clean f t = true.
+    Proof.
+      intros Hf. induction t as [s|b IHb] using tpart_ind2; [reflexivity|].
+      cbn [clean]. apply andb_true_iff. split.
+      - apply forallb_forall. rewrite Forall_forall in IHb. exact IHb.
+      - destruct (cat_res (map (subst f) b)) as [body| |]; try reflexivity.
+        destruct (f body) as [r| |] eqn:E; try reflexivity. apply (Hf _ _ E).
+    Qed.
+
     (* ---- termination ----------------------------------------------------------------- *)
 
     (* Exhausted and OutOfFuel are produced by nothing but the exhaustion branch *)
